@@ -16,7 +16,7 @@ BASE_RULES = {
 }
 ALT = {     # alternative definitions used by derived grammars
     'W': ['"<" >> L << ">"', 'D | L', '[L, D]', '("!" >> super.W) | D', 'P(D) | L', 'P(x=L) | P(D)'],
-    'P(x)': ['"[" >> x << "]"', '"(" >> (x // ",") << ")"'],
+    'P(x)': ['"[" >> x << "]"', '"(" >> (x // ",") << ")"', '"<" >> super.P(x) << ">"', 'super.P(x) | ("!" >> x)'],
     'L': ['/[xy]/', '"l"', '("~" >> super.L) | "z"'],
     'D': ['/[78]/', '"d" >> L'],
     'start': ['W', '[W, W]', '(W // ",")'],
@@ -33,7 +33,7 @@ def texts():
         for n in range(1, 4):
             out += [''.join(p) for p in itertools.product('a0x7!<', repeat=n)]
         out += ['<a>', '<x>', '!a', '!!a', '~a', 'a,0', 'a 0', ' a', 'l', 'z', 'da', '~~a', '!<a>', 'a0a0', '<a><x>', 'a,x,7', ' a b', 'a b ', 'a  0',
-                '(a)', '(x)', '(0)', '(7)', '[a]', '[x]', '[0]', '(l)', '(z)', '(a,a)', '(x,x)', '(a)(x)', '( a )', '(a', 'a,(a)', '(a),0']
+                '(a)', '(x)', '(0)', '(7)', '[a]', '[x]', '[0]', '(l)', '(z)', '(a,a)', '(x,x)', '(a)(x)', '( a )', '(a', 'a,(a)', '(a),0', '<(a)>', '<(x)>', '<<(a)>>', '!a', '<(0)>', '<[a]>']
         TEXTS = out
     return TEXTS
 
@@ -43,7 +43,8 @@ class Level:
         self.name, self.rules, self.ignore, self.parent, self.ignore_first = name, rules, ignore, parent, ignore_first
 
     def describe(self, uid):
-        head = f'grammar c13_{uid}_{self.name}' + (f' extends c13_{uid}_{self.parent.name}' if self.parent else '') + '\n'
+        sep = '.' if getattr(self, 'dotted', False) else '_'
+        head = f'grammar c13_{uid}{sep}{self.name}' + (f' extends c13_{uid}{sep}{self.parent.name}' if self.parent else '') + '\n'
         lines = []
         inherited = set()
         p = self.parent
@@ -77,11 +78,13 @@ def flatten(level):
             def sub(m):
                 x = m.group(1)
                 for j in range(idx - 1, -1, -1):
-                    if x in chain[j].rules:
+                    key = x if x in chain[j].rules else next((k for k in chain[j].rules if k.startswith(x + '(')), None)
+                    if key is not None:
                         copy = f'{x}__at{j}'
-                        if copy not in rules:
-                            rules[copy] = None
-                            define(copy, j, chain[j].rules[x])
+                        ckey = copy + key[len(x):]          # keeps the parameter list
+                        if ckey not in rules:
+                            rules[ckey] = None
+                            define(ckey, j, chain[j].rules[key])
                         return copy
                 return 'Fail()'
             return re.sub(r'super\.(\w+)', sub, b)
@@ -155,6 +158,9 @@ def run(R):
     for uid in range(n):
         depth = rnd.choice([2, 2, 3, 3])
         levels = gen_levels(rnd, depth, with_ignore=rnd.random() < 0.5)
+        if uid % 7 == 3:
+            for lv in levels:
+                lv.dotted = True             # qualified grammar names (packages)
         order = list(range(depth))
         mods, errs = [], None
         before = None
